@@ -188,6 +188,16 @@ func VH_extract_coinbase_height() {
 			v |= uint32(s[1+i]) << (8 * uint(i))
 		}
 		vAssert(uint32(h) == v, "height is the little-endian value of the pushed bytes")
+		// BIP34: the script must start with what `CScript() << height` produces - the minimal encoding
+		// (a minimally encoded NEGATIVE number is also returned, as a negative height, e.g. 04 000000c0; no wanted
+		// height ever equals it, so CheckSerializedHeight rejects it - no claim is made about those)
+		if h >= 0 {
+			vAssert(L >= 1 && L <= 4, "a height above 16 is pushed as 1..4 bytes")
+			top := s[L]
+			vAssert(top&0x80 == 0, "the pushed number is not negative")
+			vAssert(top != 0 || (L >= 2 && s[L-1]&0x80 != 0), "minimal: no zero padding byte unless the sign bit needs it")
+			vAssert(L > 1 || s[1] > 16, "0 and 1..16 must use OP_0 / OP_1..OP_16, not a one-byte push")
+		}
 	}
 	vObserve("h", uint64(uint32(h)))
 	vReach("accept")
